@@ -309,6 +309,59 @@ pub fn run(thorough: bool) -> Report {
             }
         }
     }
+    // (7c) an INPUT whose subscript draws: each execution of the statement that gets as far as its
+    // target draws once, and a reply refused for its type is refused before the target is looked at;
+    // seeding with the seed already in use starts the sequence again like any other seeding
+    {
+        for seed in [0u64, 77] {
+            let mut s = Sess::new();
+            let _ = s.apply(&Ev::Randomize(seed));
+            let mut hist = vec![Ev::Randomize(seed)];
+            for l in ["10 INPUT A(RND(1)*9)", "20 PRINT RND(0)"] {
+                let e = Ev::Line(l.to_string());
+                let _ = s.apply(&e);
+                hist.push(e);
+            }
+            s.recs.clear();
+            let mut replies = vec!["x".to_string(), "y".to_string(), "5".to_string()].into_iter();
+            let end = s.run_line("RUN", &mut replies, 100);
+            hist.push(Ev::LineToIdle("RUN".into()));
+            let m = lcg_next(seed % LCG_M);
+            let after = s.it.verif_snapshot().rng_state;
+            let want = format!("{}\n", lcg_value(m));
+            if after != m || s.printed() != want {
+                rep.add(Violation {
+                    signature: "an INPUT whose subscript calls RND once draws more or less than once".into(),
+                    detail: format!("seed {}: 10 INPUT A(RND(1)*9) answered x, y, 5 and 20 PRINT RND(0): run ended {:?}, printed {:?}, generator state {}; one draw gives {:?} and state {}", seed, end, s.printed(), after, want, m),
+                    case: case_program(&["10 INPUT A(RND(1)*9)".to_string(), "20 PRINT RND(0)".to_string()], &["x".to_string(), "y".to_string(), "5".to_string()], seed),
+                });
+            }
+            // the same seed given again
+            let mut s = Sess::new();
+            let mut hist = vec![];
+            let mut firsts = vec![];
+            for _ in 0..3 {
+                let e = Ev::Randomize(seed);
+                let _ = s.apply(&e);
+                hist.push(e);
+                s.recs.clear();
+                let e = Ev::Line("PRINT RND(1)".into());
+                let _ = s.apply(&e);
+                hist.push(e);
+                firsts.push(s.printed());
+                let e = Ev::Line("X = RND(1) + RND(1)".into());
+                let _ = s.apply(&e);
+                hist.push(e);
+            }
+            if firsts.iter().any(|f| *f != want) {
+                rep.add(Violation {
+                    signature: "seeding with the seed already in use does not start the sequence again".into(),
+                    detail: format!("seed {} given three times, each followed by PRINT RND(1) and two more draws: printed {:?}, the sequence from that seed starts with {:?}", seed, firsts, want),
+                    case: case_history(&hist, false, false),
+                });
+            }
+        }
+    }
     // (8) seeding is seeding whatever the interpreter is doing: while a program awaits a reply,
     // between two statements of a running line, right after a break
     {
